@@ -23,7 +23,8 @@ def Installed (H : Data → Hash) (c : Call) (fs0 : Fs) (r : Regs) (fs : Fs) : P
       fs0 c.target = none ∨ ∃ d m0 sy, fs0 c.target = some (.file d m0 sy) ∧ some (H d) = c.baseHash)
 
 structure Inv (H : Data → Hash) (c : Call) (fs0 : Fs) (a : Abs) (r : Regs) (fs : Fs) (cf : Bool) : Prop where
-  frame : ∀ p, p ≠ c.target → p ≠ c.tmpName → fs p = fs0 p ∨ (fs0 p = none ∧ fs p = some .dir)
+  frame : ∀ p, p ≠ c.target → p ≠ c.tmpName →
+    fs p = fs0 p ∨ (p.isPrefixOf (parentOf c.target) = true ∧ fs0 p = none ∧ fs p = some .dir)
   clean : a.mutd = false → fs = fs0
   tgt : a.tmp ≠ .installed → fs c.target = fs0 c.target
   inst : a.tmp = .installed → Installed H c fs0 r fs
@@ -184,7 +185,8 @@ theorem Inv.transfer {a a' : Abs} {r r' : Regs} {fs : Fs} {cf cf' : Bool}
 theorem mkdirP_other (fs : Fs) (d q : Path) (h : q.isPrefixOf d = false) : fs.mkdirP d q = fs q := by
   simp [Fs.mkdirP, h]
 
-theorem mkdirP_cases (fs : Fs) (d q : Path) : fs.mkdirP d q = fs q ∨ (fs q = none ∧ fs.mkdirP d q = some .dir) := by
+theorem mkdirP_cases (fs : Fs) (d q : Path) :
+    fs.mkdirP d q = fs q ∨ (q.isPrefixOf d = true ∧ fs q = none ∧ fs.mkdirP d q = some .dir) := by
   unfold Fs.mkdirP
   by_cases h : q.isPrefixOf d = true
   · simp only [h, if_true]
@@ -203,10 +205,10 @@ theorem inv_mkdirP {a : Abs} {r r' : Regs} {fs fs' : Fs} {cf : Bool} (hc : CallO
     constructor
     case frame =>
       intro p h1 h2
-      rcases mkdirP_cases fs (parentOf c.target) p with h3 | ⟨h3, h4⟩
+      rcases mkdirP_cases fs (parentOf c.target) p with h3 | ⟨hpre, h3, h4⟩
       · rw [h3]; exact frame p h1 h2
-      · rcases frame p h1 h2 with h5 | ⟨_, h6⟩
-        · right; exact ⟨by rw [← h5]; exact h3, h4⟩
+      · rcases frame p h1 h2 with h5 | ⟨_, _, h6⟩
+        · right; exact ⟨hpre, by rw [← h5]; exact h3, h4⟩
         · rw [h3] at h6; cases h6
     case inst => intro h1; have := inst h1; simpa [Installed, ht] using this
     all_goals (simp only [ht, hx]; first | assumption | grind)
@@ -488,5 +490,199 @@ theorem inv_fail {hb : Bool} {a aOk aFail : Abs} {o : Op} {r : Regs} {fs : Fs} {
     · intro h; rcases h7 h with h | h
       · exact Or.inl h
       · right; simp [h]
+
+/-! ### Success of an op -/
+
+theorem inv_ok (hc : CallOK c fs0) {a aOk aFail : Abs} {o : Op} {r r' : Regs} {fs fs' : Fs} {cf : Bool}
+    (hI : Inv H c fs0 a r fs cf) (hs : a.step c.baseHash.isSome o = some (aOk, aFail))
+    (hd : doOp c o r fs = .ok (r', fs')) : Inv H c fs0 aOk r' fs' cf := by
+  cases o with
+  | validatePath =>
+    simp only [Abs.step, Option.some.injEq, Prod.mk.injEq] at hs
+    obtain ⟨rfl, rfl⟩ := hs
+    simp only [doOp] at hd
+    injection hd with hd; injection hd with h1 h2; subst h1 h2
+    exact hI.transfer rfl rfl (Or.inl rfl) rfl (Or.inl ⟨rfl, rfl⟩) (Or.inl rfl) (by simp; exact fun h => Or.inl h) (by simp) (by simp) (Or.inl ⟨rfl, rfl⟩) rfl rfl rfl rfl (Or.inl rfl) rfl
+  | exists_ l =>
+    cases l <;> simp only [Abs.step, Option.some.injEq, Prod.mk.injEq] at hs <;> obtain ⟨rfl, rfl⟩ := hs <;>
+      simp only [doOp, locPath] at hd
+    · injection hd with hd; injection hd with h1 h2; subst h1 h2
+      exact hI.transfer rfl rfl (Or.inl rfl) rfl (Or.inl ⟨rfl, rfl⟩) (Or.inr (Or.inr (Or.inl ⟨rfl, rfl⟩))) (by simp; exact fun h => Or.inl h) (by simp) (by simp) (Or.inl ⟨rfl, rfl⟩) rfl rfl rfl rfl (Or.inl rfl) rfl
+    · injection hd with hd; injection hd with h1 h2; subst h1 h2
+      exact hI.transfer rfl rfl (Or.inl rfl) rfl (Or.inl ⟨rfl, rfl⟩) (Or.inl rfl) (by simp; exact fun h => Or.inl h) (by simp) (by simp) (Or.inl ⟨rfl, rfl⟩) rfl rfl rfl rfl (Or.inl rfl) rfl
+    · split at hd
+      · cases hd
+      · injection hd with hd; injection hd with h1 h2; subst h1 h2
+        exact hI.transfer rfl rfl (Or.inl rfl) rfl (Or.inl ⟨rfl, rfl⟩) (Or.inl rfl) (by simp; exact fun h => Or.inl h) (by simp) (by simp) (Or.inl ⟨rfl, rfl⟩) rfl rfl rfl rfl (Or.inl rfl) rfl
+  | osPathExists l =>
+    cases l <;> simp only [Abs.step, reduceCtorEq] at hs
+    split at hs
+    · cases hs
+    · rename_i hne
+      simp only [Option.some.injEq, Prod.mk.injEq] at hs
+      obtain ⟨rfl, rfl⟩ := hs
+      have ht := hI.tsome hne
+      simp only [doOp, locPath, ht] at hd
+      injection hd with hd; injection hd with h1 h2; subst h1 h2
+      exact hI.transfer rfl rfl (Or.inl rfl) rfl (Or.inl ⟨rfl, rfl⟩) (Or.inr (Or.inr (Or.inr ⟨rfl, rfl⟩))) (by simp; exact fun h => Or.inl h) (by simp) (by simp) (Or.inl ⟨rfl, rfl⟩) rfl (by simp [ht]) rfl rfl (Or.inl rfl) rfl
+  | isSymlink l =>
+    simp only [Abs.step, Option.some.injEq, Prod.mk.injEq] at hs
+    obtain ⟨rfl, rfl⟩ := hs
+    simp only [doOp] at hd
+    split at hd
+    · cases hd
+    · injection hd with hd; injection hd with h1 h2; subst h1 h2
+      exact hI.transfer rfl rfl (Or.inl rfl) rfl (Or.inl ⟨rfl, rfl⟩) (Or.inl rfl) (by simp; exact fun h => Or.inl h) (by simp) (by simp) (Or.inl ⟨rfl, rfl⟩) rfl rfl rfl rfl (Or.inl rfl) rfl
+  | stat l =>
+    cases l <;> simp only [Abs.step, reduceCtorEq] at hs
+    split at hs
+    · rename_i h0
+      simp only [Option.some.injEq, Prod.mk.injEq] at hs
+      obtain ⟨rfl, rfl⟩ := hs
+      have htg := hI.tgt (by simp [h0])
+      simp only [doOp, locPath] at hd
+      split at hd
+      · rename_i d m sy hx
+        injection hd with hd; injection hd with h1 h2; subst h1 h2
+        refine hI.transfer rfl rfl (Or.inl rfl) rfl (Or.inr ⟨h0, rfl, m, rfl, ?_⟩) (Or.inl rfl) (by simp; exact fun h => Or.inl h) (by simp) (by simp) (Or.inl ⟨rfl, rfl⟩) rfl rfl rfl rfl (Or.inl rfl) rfl
+        intro d0 m0 sy0 h1
+        rw [← htg, hx] at h1
+        injection h1 with h1; injection h1
+      · rename_i _ n hnf hx
+        injection hd with hd; injection hd with h1 h2; subst h1 h2
+        refine hI.transfer rfl rfl (Or.inl rfl) rfl (Or.inr ⟨h0, rfl, 493, rfl, ?_⟩) (Or.inl rfl) (by simp; exact fun h => Or.inl h) (by simp) (by simp) (Or.inl ⟨rfl, rfl⟩) rfl rfl rfl rfl (Or.inl rfl) rfl
+        intro d0 m0 sy0 h1
+        rw [← htg, hx] at h1
+        injection h1 with h1
+        exact (hnf d0 m0 sy0 h1).elim
+      · cases hd
+    · cases hs
+  | read l =>
+    cases l <;> simp only [Abs.step, reduceCtorEq] at hs
+    split at hs
+    · rename_i h0
+      simp only [Option.some.injEq, Prod.mk.injEq] at hs
+      obtain ⟨rfl, rfl⟩ := hs
+      simp only [doOp, locPath] at hd
+      split at hd
+      · injection hd with hd; injection hd with h1 h2; subst h1 h2
+        exact hI.transfer rfl rfl (Or.inl rfl) rfl (Or.inl ⟨rfl, rfl⟩) (Or.inl rfl) (by simp; exact fun h => Or.inl h) (by simp) (by simp) (Or.inl ⟨rfl, rfl⟩) rfl rfl rfl rfl (Or.inr h0) rfl
+      · cases hd
+      · cases hd
+    · cases hs
+  | reread l =>
+    cases l <;> simp only [Abs.step, reduceCtorEq] at hs
+    split at hs
+    · cases hs
+    · rename_i h0
+      simp only [Option.some.injEq, Prod.mk.injEq] at hs
+      obtain ⟨rfl, rfl⟩ := hs
+      have htg := hI.tgt h0
+      simp only [doOp, locPath] at hd
+      split at hd
+      · rename_i d m sy hx
+        injection hd with hd; injection hd with h1 h2; subst h1 h2
+        exact hI.transfer rfl rfl (Or.inl rfl) rfl (Or.inl ⟨rfl, rfl⟩) (Or.inl rfl) (by simp; exact fun h => Or.inl h) (by simp) (by simp) (Or.inr ⟨rfl, d, m, sy, by rw [← htg]; exact hx, rfl⟩) rfl rfl rfl rfl (Or.inl rfl) rfl
+      · cases hd
+      · cases hd
+  | mkdirP l =>
+    cases l <;> simp only [Abs.step, reduceCtorEq] at hs
+    simp only [Option.some.injEq, Prod.mk.injEq] at hs
+    obtain ⟨rfl, rfl⟩ := hs
+    exact inv_mkdirP hc hI hd
+  | mkstemp l =>
+    cases l <;> simp only [Abs.step, reduceCtorEq] at hs
+    split at hs
+    · rename_i h0
+      simp only [Option.some.injEq, Prod.mk.injEq] at hs
+      obtain ⟨rfl, rfl⟩ := hs
+      exact inv_mkstemp hc hI h0 hd
+    · cases hs
+  | fchmod =>
+    simp only [Abs.step] at hs
+    split at hs
+    · rename_i h0
+      simp only [Option.some.injEq, Prod.mk.injEq] at hs
+      obtain ⟨rfl, rfl⟩ := hs
+      exact inv_fchmod hc hI h0.1 h0.2.1 h0.2.2 hd
+    · cases hs
+  | fdopen =>
+    simp only [Abs.step] at hs
+    split at hs
+    · simp only [Option.some.injEq, Prod.mk.injEq] at hs
+      obtain ⟨rfl, rfl⟩ := hs
+      simp only [doOp] at hd
+      split at hd
+      · injection hd with hd; injection hd with h1 h2; subst h1 h2
+        exact hI.transfer rfl rfl (Or.inl rfl) rfl (Or.inl ⟨rfl, rfl⟩) (Or.inl rfl) (by simp; exact fun h => Or.inl h) (by simp) (by simp) (Or.inl ⟨rfl, rfl⟩) rfl rfl rfl rfl (Or.inl rfl) rfl
+      · cases hd
+    · cases hs
+  | write s =>
+    cases s <;> simp only [Abs.step, reduceCtorEq] at hs
+    split at hs
+    · rename_i h0
+      simp only [Option.some.injEq, Prod.mk.injEq] at hs
+      obtain ⟨rfl, rfl⟩ := hs
+      exact inv_write hI h0.1 h0.2.1 h0.2.2 hd
+    · cases hs
+  | flush =>
+    simp only [Abs.step] at hs
+    split at hs
+    · rename_i h0
+      simp only [Option.some.injEq, Prod.mk.injEq] at hs
+      obtain ⟨rfl, rfl⟩ := hs
+      exact inv_flush hc hI h0.1 h0.2 hd
+    · cases hs
+  | fsync =>
+    simp only [Abs.step] at hs
+    split at hs
+    · rename_i h0
+      simp only [Option.some.injEq, Prod.mk.injEq] at hs
+      obtain ⟨rfl, rfl⟩ := hs
+      exact inv_fsync hc hI h0.1 h0.2 hd
+    · cases hs
+  | close =>
+    simp only [Abs.step] at hs
+    split at hs
+    · rename_i h0
+      split at hs
+      · rename_i h1
+        simp only [Option.some.injEq, Prod.mk.injEq] at hs
+        obtain ⟨rfl, rfl⟩ := hs
+        exact inv_close hc hI h0 h1 hd
+      · cases hs
+    · rename_i h0
+      simp only [Option.some.injEq, Prod.mk.injEq] at hs
+      obtain ⟨rfl, rfl⟩ := hs
+      have hp := hI.hp
+      simp only [h0] at hp
+      simp only [doOp, hp] at hd
+      injection hd with hd; injection hd with h1 h2; subst h1 h2
+      exact hI.transfer rfl rfl (Or.inl rfl) rfl (Or.inl ⟨rfl, rfl⟩) (Or.inl rfl) (by simp; exact fun h => Or.inl h) (by simp) (by simp) (Or.inl ⟨rfl, rfl⟩) rfl rfl rfl rfl (Or.inl rfl) rfl
+  | unlink l =>
+    cases l <;> simp only [Abs.step, reduceCtorEq] at hs
+    split at hs
+    · rename_i h0
+      simp only [Option.some.injEq, Prod.mk.injEq] at hs
+      obtain ⟨rfl, rfl⟩ := hs
+      exact inv_unlink hc hI h0 hd
+    · cases hs
+  | replace s d =>
+    cases s <;> cases d <;> simp only [Abs.step, reduceCtorEq] at hs
+    split at hs
+    · rename_i h0
+      simp only [Option.some.injEq, Prod.mk.injEq] at hs
+      obtain ⟨rfl, rfl⟩ := hs
+      exact inv_replace hc hI h0.1 h0.2.1 h0.2.2.1 (by simpa using h0.2.2.2.1) h0.2.2.2.2 hd
+    · cases hs
+  | openW l => simp [Abs.step] at hs
+  | chmod l => simp [Abs.step] at hs
+  | other m =>
+    cases m <;> simp only [Abs.step, reduceCtorEq] at hs
+    simp only [Option.some.injEq, Prod.mk.injEq] at hs
+    obtain ⟨rfl, rfl⟩ := hs
+    simp only [doOp] at hd
+    injection hd with hd; injection hd with h1 h2; subst h1 h2
+    exact hI.transfer rfl rfl (Or.inl rfl) rfl (Or.inl ⟨rfl, rfl⟩) (Or.inl rfl) (by simp; exact fun h => Or.inl h) (by simp) (by simp) (Or.inl ⟨rfl, rfl⟩) rfl rfl rfl rfl (Or.inl rfl) rfl
 
 end Octave
